@@ -737,13 +737,14 @@ func (s *ResettableKeystore) ResetCids(ctx context.Context, keysChan <-chan cid.
 	case <-s.done:
 		return ErrClosed
 	case s.resetOps <- resetOp{ctx: ctx, op: opStart, response: opsChan}:
-		select {
-		case err := <-opsChan:
-			if err != nil {
-				return err
-			}
-		case <-ctx.Done():
-			return ctx.Err()
+		// Always wait for the worker's answer. It is sent on an unbuffered
+		// channel, so leaving here on ctx.Done() would block the worker forever
+		// (and with it every later operation and Close), and would leave the
+		// reset marked as in progress with no cleanup registered. The worker's
+		// datastore calls observe the cancellation themselves, and Phase A
+		// below returns ctx.Err() once the cleanup has been registered.
+		if err := <-opsChan; err != nil {
+			return err
 		}
 	}
 
